@@ -67,7 +67,7 @@ package text
 //@ func (r *Reader) Pos(cur int) (p parsley.Pos)
 //@   refines parsley.Reader.Pos
 //@   requires wfReader(r) && 0 <= cur && cur <= 1<<60
-//@   ensures  int(p) == r.file.offset + cur
+//@   ensures  [base;C09,C11,C12] int(p) == r.file.offset + cur
 //@   assigns  nothing
 
 //@ func NewReader(file *File) (r *Reader)
